@@ -1043,6 +1043,11 @@ class Interp:
         cmp = st.bools.get(v) if isinstance(v, str) else None
         disc = st.discr.get(v) if isinstance(v, str) else None
         known = self.iv_of(v, st)
+        if isinstance(v, str) and t.get("dty"):
+            # the operand's type is on the terminator: terms whose type is not derivable (enum payloads) still get its range
+            tr = ty_range(t["dty"])
+            if tr:
+                known = (max(known[0], tr[0]), min(known[1], tr[1]))
         for val, bb in targets:
             if known[0] > val or known[1] < val:
                 outs.append((bb, None))
@@ -1090,6 +1095,12 @@ class Interp:
                 feasible = False
             else:
                 self.set_iv(s3, v, lo, hi)
+                # the scrutinee is often a temporary copy of a place that is read again in the arm
+                # (`match x { 0 => .., n => f(n) }`): carry the refinement to every term known equal to it
+                for (a_, b_), k_ in list(s3.le.items()):
+                    if a_ == v and k_ == 0 and s3.le.get((b_, a_)) == 0:
+                        l2, h2 = self.iv_of(b_, s3)
+                        self.set_iv(s3, b_, max(l2, lo), min(h2, hi))
         if feasible and not self.consistent(s3):
             feasible = False
         outs.append((other, s3 if feasible else None))
